@@ -1,8 +1,9 @@
 (** Proofs about Model/Hashmap.v: label decoding for all three forms, decoding of
     every serialised Patricia tree, the encoder produces the serialisation of
     the canonical tree, round trip. *)
-From Coq Require Import List NArith Arith Lia Bool Sorted.
-From Tongo Require Import Lib.Bits Lib.Res Spec.Dict Model.Hashmap Proofs.DictP.
+From Coq Require Import List NArith Arith Lia Bool Sorted Permutation.
+From Tongo Require Import Lib.Bits Lib.Res Spec.Dict Model.Hashmap Proofs.DictP
+  Proofs.HashmapPut Proofs.HashmapSort.
 Import ListNotations.
 
 (** ** list helpers *)
@@ -272,25 +273,29 @@ Proof.
     rewrite enc_label_go_eq. reflexivity.
 Qed.
 
-(** ** round trip *)
+(** ** round trip: distinct keys in ANY order *)
 Theorem encode_is_canonical n (kvs : list (bits * V)) :
-  sorted kvs -> keys_len n kvs -> kvs <> [] ->
-  exists t, wf_pt n t /\ tree_to_list [] t = kvs /\
+  NoDup (map fst kvs) -> keys_len n kvs -> kvs <> [] ->
+  exists t, wf_pt n t /\ tree_to_list [] t = bsort kvs /\
             encode venc n kvs = cells_of venc n (annot_go t).
 Proof.
-  intros Hs Hl Hne.
-  destruct (sorted_tree_exists V n kvs Hs Hl Hne) as (t & Hwf & Et).
+  intros Hnd Hl Hne.
+  pose proof (bsort_sorted V kvs Hnd) as Hs.
+  pose proof (keys_len_perm V n _ _ (bsort_perm V kvs) Hl) as Hl'.
+  assert (Hne' : bsort kvs <> []) by (intros H; apply Hne, (bsort_nil_inv V); exact H).
+  destruct (sorted_tree_exists V n (bsort kvs) Hs Hl' Hne') as (t & Hwf & Et).
   exists t. repeat split; auto.
+  pose proof (bsort_length V kvs) as Hlen.
   unfold encode. destruct kvs as [|kv0 kvs']; [congruence|].
-  rewrite <- Et. apply encode_map_tree. lia.
+  rewrite <- Et in Hlen |- *. apply encode_map_tree. lia.
 Qed.
 
 Theorem encode_decode_dict n (kvs : list (bits * V)) c :
-  sorted kvs -> keys_len n kvs -> kvs <> [] ->
-  encode venc n kvs = Ok c -> decode vdec n c = Ok kvs.
+  NoDup (map fst kvs) -> keys_len n kvs -> kvs <> [] ->
+  encode venc n kvs = Ok c -> decode vdec n c = Ok (bsort kvs).
 Proof.
-  intros Hs Hl Hne Hc.
-  destruct (encode_is_canonical n kvs Hs Hl Hne) as (t & Hwf & Et & Ee).
+  intros Hnd Hl Hne Hc.
+  destruct (encode_is_canonical n kvs Hnd Hl Hne) as (t & Hwf & Et & Ee).
   rewrite Ee in Hc. rewrite <- Et.
   replace (tree_to_list [] t) with (tree_to_list [] (erase (annot_go t)))
     by (rewrite erase_annot_go; reflexivity).
@@ -300,14 +305,31 @@ Proof.
 Qed.
 
 Theorem encode_decode_dict_e n (kvs : list (bits * V)) c :
-  sorted kvs -> keys_len n kvs ->
-  encode_e venc n kvs = Ok c -> decode_e vdec n c = Ok kvs.
+  NoDup (map fst kvs) -> keys_len n kvs ->
+  encode_e venc n kvs = Ok c -> decode_e vdec n c = Ok (bsort kvs).
 Proof.
-  intros Hs Hl Hc. unfold encode_e in Hc. destruct kvs as [|kv0 kvs'].
+  intros Hnd Hl Hc. unfold encode_e in Hc. destruct kvs as [|kv0 kvs'].
   - apply mk_cell_ok in Hc. subst c. reflexivity.
   - apply bind_ok in Hc. destruct Hc as (c' & Hc' & Hc).
     apply mk_cell_ok in Hc. subst c. cbn [decode_e].
     apply encode_decode_dict; auto. discriminate.
+Qed.
+
+(** the cells depend only on the set of pairs, not on the order of the slice *)
+Theorem encode_perm_invariant n (l1 l2 : list (bits * V)) :
+  NoDup (map fst l1) -> Permutation l1 l2 ->
+  encode venc n l1 = encode venc n l2 /\ encode_e venc n l1 = encode_e venc n l2.
+Proof.
+  intros Hnd Hp.
+  assert (E : encode venc n l1 = encode venc n l2).
+  { unfold encode. rewrite (bsort_perm_eq V l1 l2 Hnd Hp), (Permutation_length Hp).
+    destruct l1 as [|a l1'], l2 as [|b l2']; try reflexivity.
+    - apply Permutation_nil in Hp. discriminate.
+    - apply Permutation_sym, Permutation_nil in Hp. discriminate. }
+  split; [exact E|]. unfold encode_e. rewrite E.
+  destruct l1 as [|a l1'], l2 as [|b l2']; try reflexivity.
+  - apply Permutation_nil in Hp. discriminate.
+  - apply Permutation_sym, Permutation_nil in Hp. discriminate.
 Qed.
 
 (** dictionaries of another implementation, HashmapE level *)
